@@ -321,9 +321,22 @@ def rule_c(prog, rep):
         return None
     tr3 = Tracer(crate, cl3, cond_alias=alias)
     tr3.env = {}
+    # the select! binding of the trigger branch is also a match / if-let scrutinee in other spellings (`match tick { Some(()) => .. }`):
+    # seed it so that those produce the edge events tick@Some / tick@None
+    from ..ir import pat_binds_ids
+    for nd_, anc_ in crate.walk_fn(lp):
+        if nd_.get('k') == 'match':
+            for arm_ in nd_['arms']:
+                for bid, bname in pat_binds_ids(arm_['pat']):
+                    probe = {'k': 'path', 'res': 'local', 'id': bid, 'name': bname}
+                    if alias(probe) == 'tick':
+                        tr3.env[bid] = ('from', 'tick')
     bp = tr3.expr(loops[0]['body'])
-    skipped = [t for (ex, t, v) in bp if '?tick=1' in t and 'flush' not in t]
-    fired = [t for (ex, t, v) in bp if '?tick=1' in t and 'flush' in t]
+
+    def got_trigger(t):
+        return '?tick=1' in t or 'tick@Some' in t
+    skipped = [t for (ex, t, v) in bp if got_trigger(t) and 'flush' not in t]
+    fired = [t for (ex, t, v) in bp if got_trigger(t) and 'flush' in t]
     if skipped or not fired:
         rep.violation('C16.c', 'aggregate_loop:trigger', lp.loc, f'a timer trigger can be consumed without flushing the buffers: '
                       f'{[list(x) for x in skipped[:1]]} - an event buffered after an early (conflict) flush would wait for the next event',
